@@ -5,11 +5,55 @@ import json, os, subprocess
 ROOT = os.path.dirname(os.path.dirname(os.path.abspath(__file__)))
 
 # id -> (design section, technique, level text, level note)
-CHECKS = {
-    "C01": ("4/C01", "runtime monitor: real compose/>> on generated + hostile pairs, oracle = reference pushout on a plain model + isomorphism search with pinned interfaces, panics recorded as outcomes, two build profiles",
-            "Exploration: every executed composition is decided by an independent model (union of the two diagrams glued along the boundary) up to isomorphism, including type-mismatch refusal and totality. Held on the K executions listed in the evidence, not a proof.",
-            "Trusts the plain reference model and the self-tested isomorphism search in /verif/harness; covers small diagrams (<=14 nodes) plus closed-form stress shapes, label alphabets of the generators, Vec backend."),
+COMMON_NOTE = "Trusts the plain Vec/loop reference model, the oracles and (where used) the self-tested isomorphism search in /verif/harness; covers the size bands and label alphabets of the generators plus the fixed hostile corpus, Vec backend, two build profiles (overflow+debug assertions on / plain release). Held on the executions listed in the evidence, not a proof."
+
+# id -> (design section, technique, level text)
+ALL = {
+    "C01": ("runtime monitor on compose / >>: reference pushout on a plain model + isomorphism search with pinned interfaces; mismatch refusal and panics recorded as outcomes",
+            "Exploration: every executed composition is decided against an independently computed gluing up to isomorphism, including type-mismatch refusal and totality."),
+    "C02": ("runtime monitor on strict and lax tensor / |: field-for-field comparison with model juxtaposition; associativity and unit laws as raw data equality",
+            "Exploration: every executed tensor is compared on the nose (all raw fields, offsets, segment codomains, pending pairs) with juxtaposition computed by loops."),
+    "C03": ("runtime monitor on both sides of each symmetric-monoidal law computed through the public API; isomorphism decision procedure on the results",
+            "Exploration: associativity, unit, interchange, twist naturality, self-inverse symmetry and both hexagons decided by a complete isomorphism search on every generated instance."),
+    "C04": ("runtime monitor on dagger / spider / half_spider (strict and lax): raw equality for swap and involution, model cospan composition + isomorphism for fusion, exact rejection condition",
+            "Exploration: dagger laws, spider fusion against union-find-free cospan composition, spiders-as-identities/symmetries and the exact None condition on every generated cospan."),
+    "C05": ("runtime monitor: deep well-formedness walker over every diagram returned by >=30 kinds of public operation + accept/reject oracle on raw data at the boundaries of each checked constructor",
+            "Exploration: every returned diagram is walked field by field and its promised type checked; every checked constructor is driven at max=target-1/target/target+1, sum+-1, count+-1."),
+    "C06": ("runtime monitor on the FiniteFunction / SemifiniteFunction API against functions-as-Vec computed by loops; coequalizer partition equality against naive closure; universal-map existence oracle; exhaustive small scope",
+            "Exploration + exhaustive small scope (all tables with source<=3, target<=3): every public method compared with its set-theoretic meaning."),
+    "C07": ("runtime monitor on every VecArray primitive against scalar definitions (open choices accepted as the contract says); exhaustive small arrays; Miri as auxiliary undefined-behaviour trip-wire in the thorough tier",
+            "Exploration + exhaustive small scope (arrays of length<=4 over values<=3): each primitive compared element-wise with a scalar loop."),
+    "C08": ("runtime monitor on segmented arrays: results decoded by explicit loops and compared with list-of-lists semantics; iterator event log (next/len/size_hint after every step); constructor accept/reject at the boundary",
+            "Exploration: every operation of IndexedCoproduct/Operations re-establishes the size invariant and equals the list-of-lists result; iterators report the exact remaining count after every step."),
+    "C09": ("runtime monitor on lax quotient(): snapshot of all public fields before/after, flood-fill component oracle, Ok-iff-uniform, idempotence, atomic failure; call histories with a shadow model in lock-step",
+            "Exploration: every executed quotient (single calls and histories) is bracketed by state snapshots and decided against naive connected components."),
+    "C10": ("runtime monitor on from_strict/to_strict round trips (raw equality) and on lax vs strict categorical operations (strictify + isomorphism); in-place variants compared with pure ones by derived equality",
+            "Exploration: lossless conversion and commutation of strictification with compose/lax_compose/tensor/identity/twist/spider/dagger/singleton on every generated pair."),
+    "C11": ("runtime monitor on builder histories: list-based shadow model replayed step by step, every public field and return value compared after each call; rejected deletions run on a clone; serde JSON round trip and key set",
+            "Exploration over histories: 30-60 step editing sequences with valid/duplicate/out-of-range arguments refine a plain list model; persisted JSON uses the documented field names."),
+    "C12": ("runtime monitor on Functor::map_arrow (strict trait and lax trait via dyn_functor) against generator-wise substitution on the plain model + isomorphism; functoriality laws through the API",
+            "Exploration over parameterised functor families (object image length 0-3, operation image single/composite/spider/empty) crossed with generated diagrams."),
+    "C13": ("runtime monitor on try_define_map_arrow / map_arrow_witness: refusal iff pending unifications, quotiented result isomorphic to strict path and model, witness segment/label/interface oracle",
+            "Exploration: native lax functor path compared with the strict path and the model on every generated quotient-free diagram; witness checked through the quotient map."),
+    "C14": ("runtime monitor on Optic::map_arrow/adapt and lax map_adapted: exact type lists, model lens + isomorphism for single operations, functoriality, monogamy, and evaluation of the adapted optic against an independent reverse-mode derivative over Z/2^64",
+            "Exploration: typing, structure and functoriality on generated diagrams; derivative semantics on random monogamous acyclic polynomial circuits with random u64 inputs."),
+    "C15": ("runtime monitor on layer / layered_operations and (via verif-hooks) converse / adjacency / indegree / kahn: dependency relation by loops, cyclic set by stripping cross-checked with transitive closure, layering clauses",
+            "Exploration: dense small diagrams (multiplicities 3-16 common), cyclic, self-dependent, cycle-with-tail, zero-arity, raw multigraphs, 3*10^3-operation chain; panics are recorded outcomes."),
+    "C16": ("runtime monitor on eval with a logging apply callback: exactly-once + dependency-order event-log check, reference interpreter on the plain model, renumbering invariance, refusal iff cyclic",
+            "Exploration: circuits over a test signature with fan-out, multi-output gates and inputs at different depths; every batch passed to the callback is logged and checked."),
+    "C17": ("runtime monitor on is_acyclic / is_monogamous / in_degree / out_degree: DFS and counting definitions on the plain model, outcome (value or panic) recorded per build profile",
+            "Exploration: total, exact answers on dense small diagrams incl. isolated/dangling nodes, repeated incidences and many parallel connections, in a checked and a release build."),
+    "C18": ("runtime monitor on HypergraphArrow::new / is_monomorphism / is_convex_subgraph: model set of failing naturality conditions, injectivity, brute-force two-state reachability for convexity",
+            "Exploration: natural arrows, each single perturbation, junk and mistyped maps; convexity on inclusions into cyclic graphs with parallel/repeated incidences."),
+    "C19": ("runtime monitor on var::build / forget / forget_monogamous: expression DAG evaluation vs eval of the built term (callback log), model substitution of uniform var edges + isomorphism, totality",
+            "Exploration over programs: random expression DAGs with sharing and arbitrary lax terms with var hyperedges of every arity and label mix (incl. source-less, differently labelled targets)."),
+    "C20": ("differential runtime monitor: the same strict-module calls at VecKind and at an adversarial, seeded, contract-conforming ArrayKind defined in the harness (self-checked against the C07 oracle); results compared up to isomorphism / equality",
+            "Exploration over configurations: argsort tie order, component numbering, sparse-bincount key order, scatter filler and write order all resolved differently per seed; divergence counters must be non-zero."),
 }
+
+BUILT = ["C01", "C08", "C09", "C15", "C17"]
+
+CHECKS = {pid: ("4/" + pid, ALL[pid][0] + "; two build profiles", ALL[pid][1] + " Held on the K executions listed in the evidence, not a proof.", COMMON_NOTE) for pid in BUILT}
 
 NOT_YET = "monitor not built yet in this round (design in DESIGN.md section 4); not claimed until its check exists"
 
